@@ -1412,6 +1412,9 @@ func marshalDate(info TypeInfo, value interface{}) ([]byte, error) {
 }
 
 func unmarshalDate(info TypeInfo, data []byte, value interface{}) error {
+	if _, ok := value.(Unmarshaler); !ok && len(data) != 0 && len(data) != 4 {
+		return unmarshalErrorf("can not unmarshal %s: a date has 4 bytes, got %d", info, len(data))
+	}
 	switch v := value.(type) {
 	case Unmarshaler:
 		return v.UnmarshalCQL(info, data)
